@@ -31,3 +31,11 @@ Theorem C10_cli fuel uc o ordfile txt out : cli fuel uc o ordfile txt = CliOk ou
 Proof. exact (C10_cli_table fuel uc o ordfile txt out). Qed.
 Theorem C10_bench {A} (ev : unit -> A) k d0 : 1 <= k -> repeat_eval k ev d0 = ev tt.
 Proof. exact (TableFilter.C10_bench ev k d0). Qed.
+
+(** the hypotheses of C10_partition are satisfiable and the printer does what the picture says:
+    x0 & -x1 over the columns [0; 1] gives the rows (F, Any | False), (T, F | True), (T, T | False) *)
+Example C10_instance :
+  tt_rows (0 :: 1 :: nil) (Nd (Nd F 1 T) 0 F) (TA :: TA :: nil)
+  = Some (((TF :: TA :: nil), false) :: ((TT :: TF :: nil), true) :: ((TT :: TT :: nil), false) :: nil)
+  /\ tt_rows_f (0 :: 1 :: nil) TTrue (Nd (Nd F 1 T) 0 F) (TA :: TA :: nil) = Some (((TT :: TF :: nil), true) :: nil).
+Proof. split; vm_compute; reflexivity. Qed.
